@@ -666,6 +666,36 @@ def name_display(text):
     if not m: refuse(W, f"Display for Name: {b[:200]}")
     return {'label': 'utf8-lossy', 'sep': m.group(1)}
 
+# ------------------------------------------------------------------ rdata/txt.rs: the text and attribute API
+def byte_lit(x, W):
+    m = re.fullmatch(r"b?'(\\?.)'", x)
+    if not m or (len(m.group(1)) == 2 and m.group(1)[1] not in "\\'"): refuse(W, f"literal not recognised: {x}")
+    return ord(m.group(1)[-1])
+
+def txt_api(text):
+    W = 'rdata/txt.rs: attributes / long_attributes / TryFrom<HashMap> / TryFrom<&str>'
+    b = fn_body(text, 'attributes', W, r'&self\)')
+    m = re.match(r"let mut attributes=HashMap::new\(\);for char_str in&self\.strings\{let mut splited=char_str\.data\.splitn\(2,\|c\|\*c==(b'(?:\\.|[^'\\])')\);"
+                 r"let key=match splited\.next\(\)\{Some\(key\)=>match std::str::from_utf8\(key\)\{Ok\(key\)=>key\.to_owned\(\),Err\(_\)=>continue,\},None=>continue,\};"
+                 r"let value=match splited\.next\(\)\{Some\(value\)if!value\.is_empty\(\)=>match std::str::from_utf8\(value\)\{Ok\(v\)=>Some\(v\.to_owned\(\)\),Err\(_\)=>Some\(String::new\(\)\),\},Some\(_\)=>Some\(String::new\(\)\),_=>None,\};"
+                 r"attributes\.(entry\(key\)\.or_insert\(value\)|insert\(key,value\));\}attributes$", b)
+    if not m: refuse(W, f"attributes: {b[:300]}")
+    attr_sep, attr_ins = byte_lit(m.group(1), W), ('or_insert' if m.group(2).startswith('entry') else 'insert')
+    b = fn_body(text, 'long_attributes', W)
+    m = re.match(r"let mut attributes=HashMap::new\(\);let full_string:String=match self\.try_into\(\)\{Ok\(string\)=>string,Err\(err\)=>return Err\(crate::SimpleDnsError::InvalidUtf8String\(err\)\),\};"
+                 r"let parts=full_string\.split\(('(?:\\.|[^'\\])')\);for part in parts\{let key_value=part\.splitn\(2,('(?:\\.|[^'\\])')\)\.collect::<Vec<&str>>\(\);let key=key_value\[0\];"
+                 r"let value=match key_value\.len\(\)>1\{true=>Some\(key_value\[1\]\.to_owned\(\)\),_=>None,\};if!key\.is_empty\(\)\{attributes\.(entry\(key\.to_owned\(\)\)\.or_insert\(value\)|insert\(key\.to_owned\(\),value\));\}\}Ok\(attributes\)$", b)
+    if not m: refuse(W, f"long_attributes: {b[:300]}")
+    long_sep, long_kv, long_ins = byte_lit(m.group(1), W), byte_lit(m.group(2), W), ('or_insert' if m.group(3).startswith('entry') else 'insert')
+    b = block_after(text, r"impl<'a>TryFrom<HashMap<String,Option<String>>>for TXT<'a>\{type Error=crate::SimpleDnsError;fn try_from\(value:HashMap<String,Option<String>>\)->Result<Self,Self::Error>", W)
+    m = re.match(r'let mut txt=TXT::new\(\);for\(key,value\)in value\{match value\{Some\(value\)=>\{txt\.add_char_string\(format!\("\{\}(.)\{\}",&key,&value\)\.try_into\(\)\?\);\}None=>txt\.add_char_string\(key\.try_into\(\)\?\),\}\}Ok\(txt\)$', b)
+    if not m: refuse(W, f"TryFrom<HashMap>: {b[:300]}")
+    map_sep = ord(m.group(1))
+    b = block_after(text, r"impl<'a>TryFrom<&'a str>for TXT<'a>\{type Error=crate::SimpleDnsError;fn try_from\(value:&'a str\)->Result<Self,Self::Error>", W)
+    m = re.match(r'let mut txt=TXT::new\(\);for v in value\.as_bytes\(\)\.chunks\(MAX_CHARACTER_STRING_LENGTH(?:-(\d+))?\)\{txt\.add_char_string\(CharacterString::new\(v\)\?\);\}Ok\(txt\)$', b)
+    if not m: refuse(W, f"TryFrom<&str>: {b[:300]}")
+    return {'attrSep': attr_sep, 'attrInsert': attr_ins, 'longSep': long_sep, 'longKv': long_kv, 'longInsert': long_ins, 'mapSep': map_sep, 'chunkMinus': int(m.group(1) or 0)}
+
 # ------------------------------------------------------------------ name.rs: the relations between names
 def name_relations(text):
     W = 'name.rs: is_link_local / is_subdomain_of / without'
@@ -819,6 +849,8 @@ def generate(repo):
         return into_records(files['inst'], files['conv'])
     ir = attempt('mdns.into_records', _ir)
     npz = attempt('name.parse', need('name', name_parse))
+    files['txt'] = read_keep('simple-dns/src/dns/rdata/txt.rs')
+    txa = attempt('txt.api', need('txt', txt_api))
     nwr = attempt('name.write', need('name', name_write))
     ndi = attempt('name.display', need('name', name_display))
     files['modrs'] = read('simple-dns/src/dns/mod.rs')
@@ -955,6 +987,13 @@ def generate(repo):
           "/-- `Display for Label` (the octets through `from_utf8_lossy`) and `Display for Name` (what stands between two labels) -/",
           "def nameDisplayLabel : Option String := " + ('none' if ndi is None else 'some ' + q(ndi['label'])),
           "def nameDisplaySep : Option String := " + ('none' if ndi is None else 'some "' + lean_str(ndi['sep']) + '"'),
+          "/-- the text API of TXT: the octet `attributes` splits a character-string at and how an entry goes into the map; the characters `long_attributes` splits at (parts, then key / value) and how an entry goes in; the character `TryFrom<HashMap>` joins key and value with; what `TryFrom<&str>` takes off `MAX_CHARACTER_STRING_LENGTH` for its chunk size -/",
+          "def txtAttrSep : Option Nat := " + optn(g(txa, 'attrSep')),
+          "def txtAttrInsert : Option String := " + ('none' if txa is None else 'some ' + q(txa['attrInsert'])),
+          "def txtLongSeps : Option (Nat × Nat) := " + ('none' if txa is None else f"some ({txa['longSep']}, {txa['longKv']})"),
+          "def txtLongInsert : Option String := " + ('none' if txa is None else 'some ' + q(txa['longInsert'])),
+          "def txtMapSep : Option Nat := " + optn(g(txa, 'mapSep')),
+          "def txtChunkMinus : Option Nat := " + optn(g(txa, 'chunkMinus')),
           "/-- `From<QTYPE> for u16` and `From<QCLASS> for u16` (the codes the writers emit): (variant, code; `none` for the arm that converts the wrapped TYPE / CLASS) -/",
           "def qtypeToCode : Option (List (String × Option Nat)) := " + ('none' if qo is None else 'some [' + ', '.join(f'({q(a)}, {"none" if b == "inner" else "some " + b})' for a, b in qo['QTYPE']) + ']'),
           "def qclassToCode : Option (List (String × Option Nat)) := " + ('none' if qo is None else 'some [' + ', '.join(f'({q(a)}, {"none" if b == "inner" else "some " + b})' for a, b in qo['QCLASS']) + ']'),
